@@ -157,7 +157,12 @@ func (s *Server) Serve(l net.Listener, initializedCh chan struct{}) error {
 		lastSession++
 		tempDelay = 0
 
-		s.wg.Add(1)
+		if !s.registerSession() {
+			// Shutdown has been called while connection was being accepted
+			conn.Close()
+			return nil
+		}
+
 		go s.serve(conn, fmt.Sprintf("%08x", lastSession))
 	}
 }
@@ -216,6 +221,27 @@ func (s *Server) getDoneChan() chan struct{} {
 	}
 
 	return s.doneChan
+}
+
+// registerSession adds session to the wait group unless Shutdown has been called
+//
+// Check and registration are done under the same lock Shutdown takes after signalling
+// and before it starts waiting, so Shutdown waits for every session registered.
+func (s *Server) registerSession() bool {
+	s.mu.Lock()
+	defer s.mu.Unlock()
+
+	if s.doneChan != nil {
+		select {
+		case <-s.doneChan:
+			return false
+		default:
+		}
+	}
+
+	s.wg.Add(1)
+
+	return true
 }
 
 func (s *Server) serve(conn net.Conn, session string) {
